@@ -2758,8 +2758,11 @@ pub fn freeze(env: &mut FreezeEnv, expr: &LocExpr) -> NRes<LocExpr> {
                         .iter()
                         .map(|x| match x {
                             ForIteration::Iteration(ty, lv, expr) => {
-                                // have to bind first so box_freeze_lvalue works
-                                // also recursive functions work ig
+                                // the iteratee is evaluated in the enclosing scope, before the
+                                // clause's names exist (evaluate_for), so freeze it first
+                                let expr = box_freeze(&mut env2, expr)?;
+
+                                // have to bind before box_freeze_lvalue so it works
                                 env2.bind(lv.collect_identifiers(
                                     match ty {
                                         ForIterationType::Normal => false,
@@ -2770,7 +2773,7 @@ pub fn freeze(env: &mut FreezeEnv, expr: &LocExpr) -> NRes<LocExpr> {
                                 Ok(ForIteration::Iteration(
                                     *ty,
                                     box_freeze_lvalue(&mut env2, lv)?,
-                                    box_freeze(&mut env2, expr)?,
+                                    expr,
                                 ))
                             }
                             ForIteration::Guard(expr) => {
